@@ -16,10 +16,21 @@ pub enum LKind {
     Filter(FKind),
     Cms { w: usize, d: usize, ctr: u8 },
     Hll { b: usize },
-    Digest { scale: u8, delta: f64, backlog: usize },
+    Digest {
+        scale: u8,
+        delta: f64,
+        backlog: usize,
+        /// common factor on every weight (1e-320 makes all of them subnormal)
+        #[serde(default = "one")]
+        wscale: f64,
+    },
     Reservoir { k: usize },
     Lossy { width: usize },
     Heap { k: usize, w: usize, d: usize },
+}
+
+fn one() -> f64 {
+    1.0
 }
 
 impl LKind {
@@ -67,6 +78,13 @@ pub trait Life {
     /// a cheap read that forces lazy work (T-Digest compaction); allocation free result
     fn touch(&self) -> u64 {
         0
+    }
+    /// feeds several operations at once; structures with an `Extend` impl receive them through it
+    /// (one iterator with an exact size hint)
+    fn apply_chunk(&mut self, items: &[(u64, u64)]) {
+        for &(a, b) in items {
+            self.apply(a, b);
+        }
     }
     fn as_any(&self) -> &dyn std::any::Any;
     /// `Clone::clone_from(self, src)`; false if `src` is not the same structure type
@@ -196,19 +214,22 @@ impl Life for HllLife {
     }
 }
 
-struct DigLife(Box<dyn DigDyn>);
+struct DigLife(Box<dyn DigDyn>, f64);
 impl Life for DigLife {
     fn as_any(&self) -> &dyn std::any::Any {
         self
     }
     fn clone_from_dyn(&mut self, src: &dyn Life) -> bool {
         match src.as_any().downcast_ref::<DigLife>() {
-            Some(s) => self.0.clone_from_dyn(s.0.as_ref()),
+            Some(s) => {
+                self.1 = s.1; // the wrapper's weight factor belongs to the workload, not to the digest
+                self.0.clone_from_dyn(s.0.as_ref())
+            }
             None => false,
         }
     }
     fn apply(&mut self, a: u64, b: u64) -> (u64, bool) {
-        let w = digest_weight(b);
+        let w = digest_weight(b) * self.1;
         self.0.insert_weighted(digest_value(a), w);
         (0, w > 0.0)
     }
@@ -233,7 +254,7 @@ impl Life for DigLife {
         self.0.clear()
     }
     fn fork(&self) -> Box<dyn Life> {
-        Box::new(DigLife(self.0.fork()))
+        Box::new(DigLife(self.0.fork(), self.1))
     }
     fn is_empty(&self) -> Option<bool> {
         Some(self.0.is_empty())
@@ -245,6 +266,9 @@ impl Life for DigLife {
 
 struct ResLife(ReservoirSampling<u64, SimRng>, RngProbe);
 impl Life for ResLife {
+    fn apply_chunk(&mut self, items: &[(u64, u64)]) {
+        self.0.extend(items.iter().map(|t| t.0));
+    }
     fn as_any(&self) -> &dyn std::any::Any {
         self
     }
@@ -319,6 +343,10 @@ impl Life for LossyLife {
 struct HeapLife(CMSHeap<u64>, u64);
 impl Life for HeapLife {
     clone_from_impl!(HeapLife);
+    fn apply_chunk(&mut self, items: &[(u64, u64)]) {
+        let m = self.1;
+        self.0.extend(items.iter().map(|t| t.0 % m));
+    }
     fn apply(&mut self, a: u64, _b: u64) -> (u64, bool) {
         self.0.add(a % self.1);
         (0, true)
@@ -347,7 +375,7 @@ pub fn build_life(kind: &LKind, hasher: SimHasher, rng_seed: u64, tape: &[(u64, 
         LKind::Filter(k) => Box::new(FilterLife(AnyFilter::build_at(k, hasher, rng_seed, tape, pos))),
         LKind::Cms { w, d, ctr } => Box::new(CmsLife(AnyCms::build(*w, *d, *ctr, hasher))),
         LKind::Hll { b } => Box::new(HllLife(Hll::with_hash(*b, hasher))),
-        LKind::Digest { scale, delta, backlog } => Box::new(DigLife(build_digest(*scale, *delta, *backlog))),
+        LKind::Digest { scale, delta, backlog, wscale } => Box::new(DigLife(build_digest(*scale, *delta, *backlog), *wscale)),
         LKind::Reservoir { k } => {
             let (rng, probe) = SimRng::new_at(rng_seed, tape, pos);
             Box::new(ResLife(ReservoirSampling::new(*k, rng), probe))
